@@ -337,7 +337,9 @@ func checkBody(body string) {
 	neutral := strings.ReplaceAll(body, slot, "zq")
 	spans := jslit.Lex(neutral)
 	for _, sp := range spans {
-		if sp.Unterminated {
+		// an unterminated literal, or a backslash outside any literal, is not JavaScript in any reading: the token
+		// sequence was meant differently (e.g. a regex after an identifier reads as a division) — skipped and counted
+		if sp.Unterminated || (sp.Ctx == jslit.Code && strings.Contains(neutral[sp.Start:sp.End], "\\")) {
 			bs.skippedInvalidJS.Add(1)
 			return
 		}
